@@ -1,12 +1,824 @@
 package world
 
-// advPeer is the protocol-speaking hostile counterparty (see adv_peer_impl.go).
-type advPeer struct {
-	a  *Adversary
-	id int
+import (
+	"bytes"
+	"crypto/sha256"
+	"encoding/hex"
+	"encoding/json"
+	"fmt"
+	"strings"
+	"time"
+
+	"github.com/btcsuite/btcd/btcec/v2"
+	"github.com/btcsuite/btcd/btcec/v2/ecdsa"
+	"github.com/btcsuite/btcd/chaincfg/chainhash"
+	"github.com/btcsuite/btcd/txscript"
+	"github.com/btcsuite/btcd/wire"
+	"github.com/elementsproject/peerswap/swap"
+	"github.com/vulpemventures/go-elements/confidential"
+	"github.com/vulpemventures/go-elements/elementsutil"
+	"github.com/vulpemventures/go-elements/transaction"
+)
+
+// AdvCfg scripts the hostile counterparty. It speaks the protocol from its own
+// message definitions (rec.go) and builds transactions with its own factory.
+type AdvCfg struct {
+	Role     string `json:"role"`     // "maker" or "taker"
+	Initiate bool   `json:"initiate"` // adversary starts the swap (swap-in as maker, swap-out as taker)
+	StartMs  int    `json:"start_ms,omitempty"`
+	Chain    string `json:"chain"`
+	Amount   uint64 `json:"amount"`
+	Colon    bool   `json:"colon,omitempty"`
+	Version  int    `json:"version,omitempty"` // protocol version claimed (0 => 7)
+	Limit    int64  `json:"limit,omitempty"`   // acceptable_premium in a request
+	Premium  int64  `json:"premium,omitempty"` // premium in an agreement
+	Pubkey   string `json:"pubkey,omitempty"`  // "", "short", "notpoint"
+	Network  string `json:"network,omitempty"` // override of the network/asset fields of a request: "", "othernet", "otherasset", "both", "none"
+
+	FeeSat          int64     `json:"fee_sat,omitempty"` // fee invoice amount when answering a swap-out (-1 => none)
+	Open            OpenKnobs `json:"open"`
+	Inv             InvKnobs  `json:"inv"`
+	AnnounceDelayMs int       `json:"announce_delay_ms,omitempty"`
+	AnnounceFirst   bool      `json:"announce_first,omitempty"` // announce before broadcasting
+	Reannounce      int       `json:"reannounce,omitempty"`
+	ConfirmNow      int       `json:"confirm_now,omitempty"` // mine this many blocks right after broadcasting
+
+	PayFee       bool        `json:"pay_fee,omitempty"`
+	PayClaim     bool        `json:"pay_claim,omitempty"`
+	ClaimDelayMs int         `json:"claim_delay_ms,omitempty"`
+	Coop         string      `json:"coop,omitempty"`         // "", "good", "bad"
+	CancelAfter  string      `json:"cancel_after,omitempty"` // "", "agreement", "opening"
+	HoldHTLC     bool        `json:"hold_htlc,omitempty"`    // as payee: hold the claim HTLC
+	FailHTLC     bool        `json:"fail_htlc,omitempty"`
+	Spends       []SpendKnob `json:"spends,omitempty"`
+	Requests     []ReqKnob   `json:"requests,omitempty"`
 }
 
-func newAdvPeer(a *Adversary, id int) *advPeer                 { return &advPeer{a: a, id: id} }
-func (p *advPeer) start()                                      {}
-func (p *advPeer) onMessage(from int, typ int, payload []byte) {}
-func (p *advPeer) onHTLC(pm *Payment, inv *Invoice) string     { return "settle" }
+type OpenKnobs struct {
+	AmountDelta   int64  `json:"amount_delta,omitempty"`
+	Asset         string `json:"asset,omitempty"`     // "", "other", "forged"
+	Explicit      bool   `json:"explicit,omitempty"`  // unblinded output
+	BlindKey      string `json:"blind_key,omitempty"` // "", "wrong", "none"
+	Keys          string `json:"keys,omitempty"`      // "", "swapped", "othertaker", "othermaker"
+	Hash          string `json:"hash,omitempty"`      // "", "other"
+	CSVDelta      int    `json:"csv_delta,omitempty"`
+	Index         int    `json:"index,omitempty"`
+	AnnounceDelta int    `json:"announce_delta,omitempty"` // announced script_out = real index + delta
+	Decoy         string `json:"decoy,omitempty"`          // "", "sameamount", "samescript"
+	Broadcast     string `json:"broadcast,omitempty"`      // "", "none", "hold" (stays in mempool)
+	WrongTxid     bool   `json:"wrong_txid,omitempty"`     // announce another txid
+}
+
+type InvKnobs struct {
+	AmountDeltaMsat int64  `json:"amount_delta_msat,omitempty"`
+	Hash            string `json:"hash,omitempty"` // "", "other": invoice hash differs from the one locked in the script
+	CLTV            int    `json:"cltv,omitempty"` // -1 => protocol default
+	Dest            string `json:"dest,omitempty"` // "", "third"
+	ExpirySec       int    `json:"expiry_sec,omitempty"`
+}
+
+type SpendKnob struct {
+	AtMs     int    `json:"at_ms"`
+	Witness  string `json:"witness"` // see advSpend
+	Sequence int64  `json:"sequence"`
+	By       string `json:"by,omitempty"` // "", "third"
+}
+
+type ReqKnob struct {
+	AtMs    int    `json:"at_ms"`
+	Type    string `json:"type"` // in, out
+	Chain   string `json:"chain"`
+	Amount  uint64 `json:"amount"`
+	Version int    `json:"version"`
+	Limit   int64  `json:"limit"`
+	Net     string `json:"net,omitempty"` // "", "othernet", "otherasset", "both", "none"
+	Scid    string `json:"scid,omitempty"`
+	Pubkey  string `json:"pubkey,omitempty"`
+	From    int    `json:"from,omitempty"` // 0 = the adversarial peer itself, 2 = third party
+}
+
+// advSwap is the adversary's view of one swap.
+type advSwap struct {
+	id       string
+	swapIn   bool
+	maker    bool
+	chain    string
+	version  int
+	amount   uint64
+	premium  int64
+	key      *btcec.PrivateKey
+	peerPub  string
+	feeInv   *Invoice
+	claimInv *Invoice
+	claimPre string
+	opening  *AdvOpening
+	peerOpen *RecOpening
+	scid     string
+	paidPre  string
+	neg      *Negotiated
+}
+
+// AdvOpening is what the adversary built and announced (ground truth for C01).
+type AdvOpening struct {
+	SwapID   string
+	Chain    string
+	TxID     string
+	Hex      string
+	AnnTxID  string
+	AnnVout  uint32
+	Payreq   string
+	PayHash  string // hash locked in the script
+	BlindKey string // as announced
+	Neg      *Negotiated
+	Valid    bool
+	Why      string
+	Vout     int
+	InvoiceOK bool
+}
+
+type advPeer struct {
+	a       *Adversary
+	id      int
+	real    int
+	cfg     *AdvCfg
+	swaps   map[string]*advSwap
+	Opens   map[string]*AdvOpening // by swap id
+	byHash  map[string]*advSwap
+	keySeq  int
+}
+
+func newAdvPeer(a *Adversary, id int) *advPeer {
+	cfg := a.w.Plan.AdvCfg
+	if cfg == nil {
+		cfg = &AdvCfg{Role: "maker", Chain: "btc"}
+	}
+	return &advPeer{a: a, id: id, real: 1 - id, cfg: cfg, swaps: map[string]*advSwap{}, Opens: map[string]*AdvOpening{}, byHash: map[string]*advSwap{}}
+}
+
+func (p *advPeer) w() *World { return p.a.w }
+
+func (p *advPeer) newKey() *btcec.PrivateKey {
+	p.keySeq++
+	h := sha256.Sum256([]byte(fmt.Sprintf("verifsim-adv-%d-%d-%d", p.id, p.keySeq, p.w().Plan.Seed)))
+	k, _ := btcec.PrivKeyFromBytes(h[:])
+	return k
+}
+
+func (p *advPeer) pubkeyFor(k *btcec.PrivateKey) string {
+	switch p.cfg.Pubkey {
+	case "short":
+		return hex.EncodeToString(k.PubKey().SerializeCompressed()[:32])
+	case "notpoint":
+		return "02" + strings.Repeat("ff", 32)
+	}
+	return hex.EncodeToString(k.PubKey().SerializeCompressed())
+}
+
+func (p *advPeer) scid() string {
+	ch := p.w().Plan.Scn.Channels[0]
+	sep := "x"
+	if p.cfg.Colon {
+		sep = ":"
+	}
+	return fmt.Sprintf("%d%s%d%s%d", ch.Block, sep, ch.Tx, sep, ch.Out)
+}
+
+func (p *advPeer) send(typ int, body interface{}) {
+	b, _ := json.Marshal(body)
+	p.w().Net.Send(p.id, p.w().Nodes[p.real].Pubkey, b, typ)
+}
+
+func (p *advPeer) netAsset(chain, knob string) (string, string) {
+	network, asset := "regtest", ""
+	if chain == "lbtc" {
+		network, asset = "", p.w().liquidAssetHex()
+	}
+	switch knob {
+	case "othernet":
+		if chain == "btc" {
+			network = "mainnet"
+		} else {
+			network = "regtest"
+		}
+	case "otherasset":
+		if chain == "lbtc" {
+			asset = "01" + strings.Repeat("42", 32)
+		} else {
+			asset = "01" + strings.Repeat("42", 32)
+		}
+	case "both":
+		network, asset = "regtest", p.w().liquidAssetHex()
+	case "none":
+		network, asset = "", ""
+	}
+	return network, asset
+}
+
+func (p *advPeer) start() {
+	w := p.w()
+	cfg := p.cfg
+	if cfg.Initiate {
+		w.Sim.After(ms(max(cfg.StartMs, 1500)), "adv", "initiate", p.initiate)
+	}
+	for i := range cfg.Requests {
+		rk := cfg.Requests[i]
+		w.Sim.After(ms(rk.AtMs), "adv", fmt.Sprintf("request#%d", i), func() { p.sendRequest(&rk) })
+	}
+}
+
+func (p *advPeer) version() int {
+	if p.cfg.Version == 0 {
+		return 7
+	}
+	return p.cfg.Version
+}
+
+// initiate: swap-in if the adversary is the maker, swap-out if it is the taker.
+func (p *advPeer) initiate() {
+	cfg := p.cfg
+	s := &advSwap{id: hex.EncodeToString(rand32()), chain: cfg.Chain, version: p.version(), amount: cfg.Amount, key: p.newKey(), scid: p.scid()}
+	s.maker = cfg.Role == "maker"
+	s.swapIn = s.maker
+	p.swaps[s.id] = s
+	network, asset := p.netAsset(cfg.Chain, cfg.Network)
+	typ := MsgSwapOutRequest
+	if s.swapIn {
+		typ = MsgSwapInRequest
+	}
+	p.send(typ, map[string]interface{}{"protocol_version": s.version, "swap_id": s.id, "network": network, "asset": asset, "scid": s.scid, "amount": s.amount, "pubkey": p.pubkeyFor(s.key), "acceptable_premium": cfg.Limit})
+}
+
+func (p *advPeer) sendRequest(rk *ReqKnob) {
+	id := hex.EncodeToString(rand32())
+	network, asset := p.netAsset(rk.Chain, rk.Net)
+	scid := rk.Scid
+	if scid == "" {
+		scid = p.scid()
+	}
+	pub := hex.EncodeToString(p.newKey().PubKey().SerializeCompressed())
+	switch rk.Pubkey {
+	case "short":
+		pub = pub[:64]
+	case "empty":
+		pub = ""
+	}
+	typ := MsgSwapOutRequest
+	if rk.Type == "in" {
+		typ = MsgSwapInRequest
+	}
+	from := p.id
+	if rk.From == 2 {
+		from = 2
+	}
+	body := map[string]interface{}{"protocol_version": rk.Version, "swap_id": id, "network": network, "asset": asset, "scid": scid, "amount": rk.Amount, "pubkey": pub, "acceptable_premium": rk.Limit}
+	b, _ := json.Marshal(body)
+	p.w().Observe(&Obs{Node: from, Kind: "adv.request", Msg: &MsgObs{From: from, To: p.real, Type: typ, Payload: b, SwapID: id}})
+	p.w().Net.Send(from, p.w().Nodes[p.real].Pubkey, b, typ)
+}
+
+func (p *advPeer) onMessage(from int, typ int, payload []byte) {
+	if from != p.real {
+		return
+	}
+	cfg := p.cfg
+	w := p.w()
+	switch typ {
+	case MsgSwapOutRequest, MsgSwapInRequest:
+		var q RecRequest
+		if json.Unmarshal(payload, &q) != nil {
+			return
+		}
+		s := &advSwap{id: q.SwapID, chain: "btc", version: q.ProtocolVersion, amount: q.Amount, key: p.newKey(), peerPub: q.Pubkey, scid: q.Scid}
+		if q.Asset != "" {
+			s.chain = "lbtc"
+		}
+		s.swapIn = typ == MsgSwapInRequest
+		s.maker = !s.swapIn // responder of swap-out is maker; responder of swap-in is taker
+		s.premium = cfg.Premium
+		p.swaps[s.id] = s
+		if cfg.CancelAfter == "request" {
+			p.send(MsgCancel, map[string]interface{}{"swap_id": s.id, "message": "no"})
+			return
+		}
+		if s.swapIn {
+			// we are the taker of a swap-in
+			p.send(MsgSwapInAgreement, map[string]interface{}{"protocol_version": p.version(), "swap_id": s.id, "pubkey": p.pubkeyFor(s.key), "premium": s.premium})
+			return
+		}
+		// maker of a swap-out: fee invoice + agreement
+		fee := cfg.FeeSat
+		if fee == 0 {
+			fee = 3500
+		}
+		payreq := ""
+		if fee > 0 {
+			pre := hex.EncodeToString(rand32())
+			inv, err := w.LN.NewInvoice(p.id, uint64(fee)*1000, pre, s.id, swap.INVOICE_FEE, "fee", 600, 9)
+			if err == nil {
+				s.feeInv = inv
+				payreq = inv.Payreq
+				p.byHash[inv.Hash] = s
+			}
+		}
+		p.send(MsgSwapOutAgreement, map[string]interface{}{"protocol_version": p.version(), "swap_id": s.id, "pubkey": p.pubkeyFor(s.key), "payreq": payreq, "premium": s.premium})
+	case MsgSwapInAgreement:
+		var a RecAgreement
+		if json.Unmarshal(payload, &a) != nil {
+			return
+		}
+		s := p.swaps[a.SwapID]
+		if s == nil {
+			p.send(MsgCancel, map[string]interface{}{"swap_id": a.SwapID, "message": "storm"})
+			return
+		}
+		if !s.maker {
+			return
+		}
+		s.peerPub = a.Pubkey
+		s.premium = a.Premium
+		if cfg.CancelAfter == "agreement" {
+			p.send(MsgCancel, map[string]interface{}{"swap_id": s.id, "message": "no"})
+			return
+		}
+		p.openAndAnnounce(s)
+	case MsgSwapOutAgreement:
+		var a RecAgreement
+		if json.Unmarshal(payload, &a) != nil {
+			return
+		}
+		s := p.swaps[a.SwapID]
+		if s == nil {
+			p.send(MsgCancel, map[string]interface{}{"swap_id": a.SwapID, "message": "storm"})
+			return
+		}
+		if s.maker {
+			return
+		}
+		s.peerPub = a.Pubkey
+		s.premium = a.Premium
+		if cfg.CancelAfter == "agreement" {
+			p.send(MsgCancel, map[string]interface{}{"swap_id": s.id, "message": "no"})
+			return
+		}
+		if cfg.PayFee {
+			w.LN.AdvPay(p.id, a.Payreq, s.scid, func(pre string, ok bool) {})
+		}
+	case MsgOpeningTx:
+		var o RecOpening
+		if json.Unmarshal(payload, &o) != nil {
+			return
+		}
+		s := p.swaps[o.SwapID]
+		if s == nil || s.maker || s.peerOpen != nil {
+			return
+		}
+		s.peerOpen = &o
+		p.takerReact(s)
+	case MsgCoopClose, MsgCancel:
+		// nothing to do
+	}
+}
+
+// takerReact: the real maker announced its opening transaction.
+func (p *advPeer) takerReact(s *advSwap) {
+	cfg := p.cfg
+	w := p.w()
+	if cfg.CancelAfter == "opening" {
+		p.send(MsgCancel, map[string]interface{}{"swap_id": s.id, "message": "changed my mind"})
+	}
+	if cfg.PayClaim {
+		w.Sim.After(ms(cfg.ClaimDelayMs+60000), "adv", "pay-claim", func() {
+			w.LN.AdvPay(p.id, s.peerOpen.Payreq, s.scid, func(pre string, ok bool) {
+				if ok {
+					s.paidPre = pre
+					w.Probe("adv:learned-preimage")
+				}
+			})
+		})
+	}
+	switch cfg.Coop {
+	case "good":
+		w.Sim.After(ms(cfg.ClaimDelayMs+5000), "adv", "coop", func() {
+			p.send(MsgCoopClose, map[string]interface{}{"swap_id": s.id, "message": "coop", "privkey": hex.EncodeToString(s.key.Serialize())})
+		})
+	case "bad":
+		w.Sim.After(ms(cfg.ClaimDelayMs+5000), "adv", "coop-bad", func() {
+			p.send(MsgCoopClose, map[string]interface{}{"swap_id": s.id, "message": "coop", "privkey": hex.EncodeToString(p.newKey().Serialize())})
+		})
+	}
+	for i := range cfg.Spends {
+		sk := cfg.Spends[i]
+		w.Sim.After(ms(sk.AtMs), "adv", fmt.Sprintf("spend#%d %s", i, sk.Witness), func() { p.advSpend(s, &sk) })
+	}
+}
+
+func (p *advPeer) onHTLC(pm *Payment, inv *Invoice) string {
+	s := p.byHash[inv.Hash]
+	if s != nil && s.claimInv == inv {
+		if p.cfg.FailHTLC {
+			return "fail"
+		}
+		if p.cfg.HoldHTLC {
+			return "hold"
+		}
+	}
+	if p.a.w.Sim.Now() >= inv.ExpiresAt || inv.State != "open" {
+		return "fail"
+	}
+	return "settle"
+}
+
+// onInvoicePaid: one of the adversary's invoices was settled.
+func (p *advPeer) onInvoicePaid(inv *Invoice) {
+	s := p.byHash[inv.Hash]
+	if s == nil {
+		return
+	}
+	if s.feeInv == inv && s.maker && s.opening == nil {
+		if p.cfg.CancelAfter == "fee" {
+			return
+		}
+		p.openAndAnnounce(s)
+	}
+}
+
+// ---------------------------------------------------------------------------
+// hostile maker: build, broadcast and announce an opening transaction
+
+func (p *advPeer) negotiated(s *advSwap) *Negotiated {
+	n := &Negotiated{Chain: s.chain, Version: 7}
+	myPub := hex.EncodeToString(s.key.PubKey().SerializeCompressed())
+	if s.maker {
+		n.MakerPub, n.TakerPub = p.pubkeyFor(s.key), s.peerPub
+		_ = myPub
+	} else {
+		n.TakerPub, n.MakerPub = p.pubkeyFor(s.key), s.peerPub
+	}
+	if s.swapIn {
+		n.OpeningSat = uint64(int64(s.amount) + s.premium)
+		n.ClaimSat = s.amount
+	} else {
+		n.OpeningSat = s.amount
+		n.ClaimSat = uint64(int64(s.amount) + s.premium)
+	}
+	if a := p.w().liquidAssetHex(); len(a) == 66 {
+		b, _ := hex.DecodeString(a)
+		n.PolicyAsset = b[1:]
+	}
+	return n
+}
+
+func (p *advPeer) openAndAnnounce(s *advSwap) {
+	w := p.w()
+	cfg := p.cfg
+	k := cfg.Open
+	neg := p.negotiated(s)
+	s.neg = neg
+	// claim invoice
+	s.claimPre = hex.EncodeToString(rand32())
+	preB, _ := hex.DecodeString(s.claimPre)
+	hh := sha256.Sum256(preB)
+	lockHash := hh[:]
+	cltv := uint64(503)
+	expiry := uint64(24 * 3600)
+	if s.chain == "lbtc" {
+		cltv, expiry = 29, 3600
+	}
+	if cfg.Inv.CLTV != 0 {
+		cltv = uint64(cfg.Inv.CLTV)
+		if cfg.Inv.CLTV < 0 {
+			cltv = 0
+		}
+	}
+	if cfg.Inv.ExpirySec > 0 {
+		expiry = uint64(cfg.Inv.ExpirySec)
+	}
+	invAmt := uint64(int64(neg.ClaimSat*1000) + cfg.Inv.AmountDeltaMsat)
+	inv, err := w.LN.NewInvoice(p.id, invAmt, s.claimPre, s.id, swap.INVOICE_CLAIM, "claim", expiry, cltv)
+	if err != nil {
+		return
+	}
+	s.claimInv = inv
+	p.byHash[inv.Hash] = s
+	payreq := inv.Payreq
+	if cfg.Inv.Hash == "other" {
+		// the script locks a different hash than the invoice pays
+		other := sha256.Sum256([]byte("other-" + s.id))
+		lockHash = other[:]
+	}
+	if k.Hash == "other" {
+		other := sha256.Sum256([]byte("script-other-" + s.id))
+		lockHash = other[:]
+	}
+	if cfg.Inv.Dest == "third" {
+		payreq = EncodePayreq(inv.Hash, invAmt, int64(cltv), w.Nodes[2].Pubkey, inv.ExpiresAt.Milliseconds(), s.id)
+	}
+	// script keys
+	takerPub, _ := hex.DecodeString(neg.TakerPub)
+	makerPub := s.key.PubKey().SerializeCompressed()
+	switch k.Keys {
+	case "swapped":
+		takerPub, makerPub = makerPub, takerPub
+	case "othertaker":
+		takerPub = p.newKey().PubKey().SerializeCompressed()
+	case "othermaker":
+		makerPub = p.newKey().PubKey().SerializeCompressed()
+	}
+	csv := uint32(int(ChainCSV(s.chain, 7)) + k.CSVDelta)
+	script := RefOpeningScript(takerPub, makerPub, lockHash, csv)
+	pk := p2wsh(script)
+	amount := uint64(int64(neg.OpeningSat) + k.AmountDelta)
+	var rawHex, txid, blindHex string
+	realIdx := 0
+	if s.chain == "btc" {
+		rawHex, txid, realIdx = p.buildBtcOpening(pk, amount, k)
+	} else {
+		rawHex, txid, realIdx, blindHex = p.buildLiquidOpening(pk, amount, k, neg)
+	}
+	annTxid := txid
+	if k.WrongTxid {
+		annTxid = hex.EncodeToString(rand32())
+	}
+	annVout := uint32(max(0, realIdx+k.AnnounceDelta))
+	op := &AdvOpening{SwapID: s.id, Chain: s.chain, TxID: txid, Hex: rawHex, AnnTxID: annTxid, AnnVout: annVout, Payreq: payreq, PayHash: hex.EncodeToString(lockHash), BlindKey: blindHex, Neg: neg}
+	op.Valid, op.Vout, op.Why = OpeningTruth(neg, rawHex, inv.Hash, blindHex)
+	op.InvoiceOK = invAmt == neg.ClaimSat*1000 && cfg.Inv.Dest == ""
+	s.opening = op
+	p.Opens[s.id] = op
+	w.Observe(&Obs{Node: p.id, Kind: "adv.opening", Str: fmt.Sprintf("valid=%v why=%q invoiceok=%v", op.Valid, op.Why, op.InvoiceOK), Tx: &TxObs{Chain: s.chain, TxID: txid, Hex: rawHex, Kind: "adv-opening"}})
+	if !op.Valid {
+		w.Probe("adv:invalid-opening:" + strings.ReplaceAll(op.Why, " ", "_"))
+	} else {
+		w.Probe("adv:valid-opening")
+	}
+	broadcast := func() {
+		c := w.BTC
+		if s.chain == "lbtc" {
+			c = w.LBTC
+		}
+		switch k.Broadcast {
+		case "none":
+			return
+		case "hold":
+			c.Hold(txid)
+		}
+		if _, err := c.Broadcast(p.id, rawHex, "adv-opening"); err != nil {
+			w.Infraf("adversary opening rejected by the chain: %v", err)
+			return
+		}
+		// a spendable swap output for later stages, when it really is one
+		if op.Valid {
+			so := &SwapOutput{TxID: txid, Vout: uint32(op.Vout), Owner: p.id, Amount: amount, Script: script, PkScript: pk, CSV: csv, TakerPub: neg.TakerPub, MakerPub: neg.MakerPub, PayHash: inv.Hash, AssetOK: true}
+			if s.chain == "lbtc" {
+				t, _ := transaction.NewTxFromHex(rawHex)
+				so.ValueCommitment = t.Outputs[op.Vout].Value
+				bk, _ := hex.DecodeString(blindHex)
+				so.BlindPriv = bk
+			}
+			c.RegisterSwap(so)
+		}
+		if cfg.ConfirmNow > 0 {
+			c.Mine(cfg.ConfirmNow)
+		}
+	}
+	announce := func() {
+		p.send(MsgOpeningTx, map[string]interface{}{"swap_id": s.id, "payreq": payreq, "tx_id": annTxid, "script_out": annVout, "blinding_key": blindHex})
+	}
+	if cfg.AnnounceFirst {
+		announce()
+		w.Sim.After(ms(cfg.AnnounceDelayMs+1000), "adv", "broadcast", broadcast)
+	} else {
+		broadcast()
+		w.Sim.After(ms(cfg.AnnounceDelayMs), "adv", "announce", announce)
+	}
+	for i := 0; i < cfg.Reannounce; i++ {
+		w.Sim.After(ms(cfg.AnnounceDelayMs)+time.Duration(i+1)*20*time.Second, "adv", "reannounce", announce)
+	}
+}
+
+func (p *advPeer) buildBtcOpening(pk []byte, amount uint64, k OpenKnobs) (string, string, int) {
+	tx := wire.NewMsgTx(2)
+	in := wire.NewTxIn(wire.NewOutPoint(ptrHash(randHash()), 0), nil, [][]byte{bytes.Repeat([]byte{0x30}, 71), p.newKey().PubKey().SerializeCompressed()})
+	tx.AddTxIn(in)
+	var outs []*wire.TxOut
+	change := wire.NewTxOut(12345678, append([]byte{0x00, 0x14}, bytes.Repeat([]byte{7}, 20)...))
+	outs = append(outs, change)
+	switch k.Decoy {
+	case "sameamount":
+		h := sha256.Sum256([]byte("decoy"))
+		outs = append([]*wire.TxOut{wire.NewTxOut(int64(amount), append([]byte{0x00, 0x20}, h[:]...))}, outs...)
+	case "samescript":
+		outs = append([]*wire.TxOut{wire.NewTxOut(546, pk)}, outs...)
+	}
+	idx := k.Index
+	if idx < 0 {
+		idx = 0
+	}
+	if idx > len(outs) {
+		idx = len(outs)
+	}
+	outs = append(outs[:idx], append([]*wire.TxOut{wire.NewTxOut(int64(amount), pk)}, outs[idx:]...)...)
+	for _, o := range outs {
+		tx.AddTxOut(o)
+	}
+	var buf bytes.Buffer
+	tx.Serialize(&buf)
+	return hex.EncodeToString(buf.Bytes()), tx.TxHash().String(), idx
+}
+
+func (p *advPeer) buildLiquidOpening(pk []byte, amount uint64, k OpenKnobs, neg *Negotiated) (string, string, int, string) {
+	blind := p.newKey()
+	blindHex := hex.EncodeToString(blind.Serialize())
+	policy := neg.PolicyAsset
+	asset33 := append([]byte{0x01}, policy...)
+	tx := transaction.NewTx(2)
+	ph := randHash()
+	tx.AddInput(transaction.NewTxInput(ph[:], 0))
+	var swapOut *transaction.TxOutput
+	switch {
+	case k.Explicit:
+		v, _ := elementsutil.ValueToBytes(amount)
+		a := asset33
+		if k.Asset == "other" {
+			a = append([]byte{0x01}, bytes.Repeat([]byte{0x42}, 32)...)
+		}
+		swapOut = transaction.NewTxOutput(a, v, pk)
+		eph := p.newKey()
+		swapOut.Nonce = eph.PubKey().SerializeCompressed()
+	case k.Asset == "other":
+		swapOut, _ = BlindedOutput(amount, bytes.Repeat([]byte{0x42}, 32), pk, blind.PubKey().SerializeCompressed())
+	case k.Asset == "forged":
+		swapOut, _ = ForgedAssetOutput(amount, bytes.Repeat([]byte{0x42}, 32), policy, pk, blind.PubKey().SerializeCompressed())
+	default:
+		swapOut, _ = BlindedOutput(amount, policy, pk, blind.PubKey().SerializeCompressed())
+	}
+	if swapOut == nil {
+		v, _ := elementsutil.ValueToBytes(amount)
+		swapOut = transaction.NewTxOutput(asset33, v, pk)
+	}
+	switch k.BlindKey {
+	case "wrong":
+		blindHex = hex.EncodeToString(p.newKey().Serialize())
+	case "none":
+		blindHex = ""
+	}
+	var outs []*transaction.TxOutput
+	cv, _ := elementsutil.ValueToBytes(12345678)
+	outs = append(outs, transaction.NewTxOutput(asset33, cv, append([]byte{0x00, 0x14}, bytes.Repeat([]byte{7}, 20)...)))
+	if k.Decoy == "samescript" {
+		dv, _ := elementsutil.ValueToBytes(546)
+		outs = append([]*transaction.TxOutput{transaction.NewTxOutput(asset33, dv, pk)}, outs...)
+	}
+	idx := k.Index
+	if idx < 0 {
+		idx = 0
+	}
+	if idx > len(outs) {
+		idx = len(outs)
+	}
+	outs = append(outs[:idx], append([]*transaction.TxOutput{swapOut}, outs[idx:]...)...)
+	fv, _ := elementsutil.ValueToBytes(300)
+	outs = append(outs, transaction.NewTxOutput(asset33, fv, []byte{}))
+	for _, o := range outs {
+		tx.AddOutput(o)
+	}
+	rawHex, _ := tx.ToHex()
+	return rawHex, tx.TxHash().String(), idx, blindHex
+}
+
+// ForgedAssetOutput commits to `committed` but builds the range proof message
+// so that unblinding discloses `disclosed` (the attack of the repo's own
+// "forged policy asset disclosure" test).
+func ForgedAssetOutput(value uint64, committed, disclosed, script, blindPub []byte) (*transaction.TxOutput, error) {
+	abf := rand32()
+	fabf := rand32()
+	vbf := rand32()
+	ac, err := confidential.AssetCommitment(committed, abf)
+	if err != nil {
+		return nil, err
+	}
+	vc, err := confidential.ValueCommitment(value, ac, vbf)
+	if err != nil {
+		return nil, err
+	}
+	eph, _ := btcec.PrivKeyFromBytes(rand32())
+	nonce, err := confidential.NonceHash(blindPub, eph.Serialize())
+	if err != nil {
+		return nil, err
+	}
+	var vbfa [32]byte
+	copy(vbfa[:], vbf)
+	rp, err := forgedRangeProof(value, nonce, disclosed, fabf, vbfa, vc, ac, script)
+	if err != nil {
+		return nil, err
+	}
+	return &transaction.TxOutput{Asset: ac, Value: vc, Script: script, Nonce: eph.PubKey().SerializeCompressed(), RangeProof: rp}, nil
+}
+
+// ---------------------------------------------------------------------------
+// hostile spends of a real maker's output (C02)
+
+func (p *advPeer) advSpend(s *advSwap, sk *SpendKnob) {
+	w := p.w()
+	if s.peerOpen == nil {
+		return
+	}
+	c := w.BTC
+	if s.chain != "btc" {
+		return // script semantics are judged on the bitcoin engine (see DESIGN C02)
+	}
+	var so *SwapOutput
+	for _, x := range c.SwapByTx(s.peerOpen.TxID) {
+		so = x
+	}
+	if so == nil || so.SpentBy != "" {
+		return
+	}
+	h, _ := chainhash.NewHashFromStr(so.TxID)
+	tx := wire.NewMsgTx(2)
+	in := wire.NewTxIn(wire.NewOutPoint(h, so.Vout), nil, nil)
+	in.Sequence = uint32(sk.Sequence)
+	tx.AddTxIn(in)
+	tx.AddTxOut(wire.NewTxOut(int64(so.Amount)-2000, append([]byte{0x00, 0x14}, bytes.Repeat([]byte{9}, 20)...)))
+	fetcher := txscript.NewCannedPrevOutputFetcher(so.PkScript, int64(so.Amount))
+	hashes := txscript.NewTxSigHashes(tx, fetcher)
+	sighash, err := txscript.CalcWitnessSigHash(so.Script, hashes, txscript.SigHashAll, tx, 0, int64(so.Amount))
+	if err != nil {
+		return
+	}
+	sign := func(k *btcec.PrivateKey) []byte {
+		return append(ecdsa.Sign(k, sighash).Serialize(), byte(txscript.SigHashAll))
+	}
+	taker := s.key // the adversary is the taker here
+	other := p.newKey()
+	pre, _ := hex.DecodeString(s.paidPre)
+	wrong32 := bytes.Repeat([]byte{0xaa}, 32)
+	var wit [][]byte
+	holds := map[string]bool{} // which secrets the attempt uses legitimately
+	switch sk.Witness {
+	case "preimage": // taker sig + real preimage (only if it paid)
+		if len(pre) != 32 {
+			return
+		}
+		wit = [][]byte{sign(taker), pre, {}, {}}
+		holds["preimage"] = true
+	case "wrong-preimage":
+		wit = [][]byte{sign(taker), wrong32, {}, {}}
+	case "short-preimage":
+		wit = [][]byte{sign(taker), wrong32[:31], {}, {}}
+	case "long-preimage":
+		wit = [][]byte{sign(taker), append(wrong32, 1), {}, {}}
+	case "empty-preimage":
+		wit = [][]byte{sign(taker), {}, {}, {}}
+	case "preimage-othersig":
+		if len(pre) != 32 {
+			pre = wrong32
+		}
+		wit = [][]byte{sign(other), pre, {}, {}}
+	case "coop-taker-only": // taker + unrelated key instead of maker
+		wit = [][]byte{sign(taker), sign(other), {}}
+	case "coop-taker-twice":
+		wit = [][]byte{sign(taker), sign(taker), {}}
+	case "csv-taker":
+		wit = [][]byte{sign(taker)}
+	case "csv-other":
+		wit = [][]byte{sign(other)}
+	case "csv-empty":
+		wit = [][]byte{{}}
+	case "csv-one":
+		wit = [][]byte{{1}}
+	case "nosig-preimage":
+		wit = [][]byte{{}, wrong32, {}, {}}
+	case "script-only":
+		wit = [][]byte{}
+	case "taker-sig-as-maker": // put taker sig in the first CHECKSIG position
+		wit = [][]byte{sign(taker), {1}}
+	default:
+		return
+	}
+	wit = append(wit, so.Script)
+	tx.TxIn[0].Witness = wit
+	var buf bytes.Buffer
+	tx.Serialize(&buf)
+	rawHex := hex.EncodeToString(buf.Bytes())
+	by := p.id
+	if sk.By == "third" {
+		by = 2
+	}
+	depth := c.Confirmations(so.TxID)
+	expect := "reject"
+	if sk.Witness == "preimage" {
+		expect = "accept"
+	}
+	_, err = c.Broadcast(by, rawHex, "adv-spend")
+	got := "accept"
+	if err != nil {
+		got = "reject"
+	}
+	w.Probe("C02:spend-attempt:" + sk.Witness)
+	es := ""
+	if err != nil {
+		es = err.Error()
+	}
+	w.Observe(&Obs{Node: by, Kind: "adv.spend", Str: fmt.Sprintf("%s|seq=%d|depth=%d|expect=%s|got=%s|%s", sk.Witness, sk.Sequence, depth, expect, got, es), Num: int64(depth)})
+}
